@@ -44,7 +44,8 @@ static void settled(void) {
   expect_consume = 0; expect_release = 0;
 }
 static void run_one(void) { if (bag_n) { void* t = bag[0]; for (unsigned i = 0; i + 1 < BAGMAX; i++) bag[i] = bag[i + 1]; bag_n--; void* bp = vp_run_task(t); VP_ASSERT(bp == 0, "unexpected bypass task"); } }
-static void arrive(unsigned id) { item[id][got[id]++] = (int)vp_nd(); last_rejected = 0; if (!registered[id]) { registered[id] = 1; vp_regpred(id); } }
+static void arrive(unsigned id) { if (done[id] == got[id]) last_rejected = 0;   /* the source was empty: this message forms a new front tuple */
+  item[id][got[id]++] = (int)vp_nd(); if (!registered[id]) { registered[id] = 1; vp_regpred(id); } }
 static void run(unsigned accpat) {
   for (int i = 0; i < 2; i++) { got[i] = done[i] = 0; registered[i] = reserved[i] = 0; }
   noffer = 0; acc_bits = accpat; last_rejected = 0; waive = 0; ntuples = 0; expect_consume = expect_release = 0; fg_reset();
@@ -53,7 +54,7 @@ static void run(unsigned accpat) {
     int op = ops[s];
     if (op == 1) arrive(0);
     else if (op == 2) arrive(1);
-    else if (op == 6) { if (!bag_n) return; run_one(); }
+    else if (op == 6) { if (!bag_n) continue; run_one(); }
     else if (op == 7) { int x = 0, y = 0;
       int can = registered[0] && registered[1] && done[0] < got[0] && done[1] < got[1];
       expect_consume = can ? 2 : 0;   /* a successful try_get consumes both */
